@@ -122,10 +122,8 @@ PROPS['C08'] = dict(functions=[MVH] + HELPERS + JOINS + OVERLAP_API + SIZE_API +
 # C10: n_jobs / chunking (split_table, chunk preconditions, concat, _id) and, for the stacks whose output is characterised
 # exactly as a function of the two rows of a pair, independence of row order and index labels
 PROPS['C10'] = dict(functions=PAR + JOINS + OVERLAP_CORE + OVERLAP_API[1:] + SIZE_CORE + SIZE_API[1:] + CANDSET + MATCHER + OVC + ED +
-                    PREFIX_TABLES[1:] + POSITION_TABLES[1:], trusted=[PANDAS, JOBLIB, PSM, LEMMA_CNT],
-                    # the token order must be a function of the multiset of tokens (frequency, then the token itself)
-                    bounded_extra=[dict(fn=TO + 'gen_token_ordering_for_tables', case='two-tables'),
-                                   dict(fn=TO + 'order_using_token_ordering', case='default')])
+                    PREFIX_TABLES[1:] + POSITION_TABLES[1:] + ORDERING,      # ORDERING: the token order is (frequency, token) order (proved)
+                    trusted=[PANDAS, JOBLIB, PSM, LEMMA_CNT])
 PROPS['C12'] = dict(functions=JOINS + OVERLAP_API[1:] + SIZE_API[1:] + CANDSET[-1:] + MATCHER[-1:] + OVC[1:] + ED[1:] +
                     PREFIX_TABLES[1:] + POSITION_TABLES[1:], trusted=[PANDAS, PSM, JOBLIB])
 PROPS['C14'] = dict(functions=ARITH[:2] + SIZE_CORE + SIZE_API + OVERLAP_CORE + OVERLAP_API[:2] + PREFIX_CORE + PREFIX_TABLES + PREFIX_PAIR + POSITION_PAIR +
